@@ -293,9 +293,23 @@ fn eval(name: &str, a: &[Value]) -> Value {
             let cram = a[2].as_str() == Some("cram");
             let output = scrut::output::Output { stdout: stdout.clone().into(), stderr: vec![].into(), exit_code: scrut::output::ExitStatus::Code(0) };
             let config = if cram { scrut::config::TestCaseConfig::default_cram() } else { scrut::config::TestCaseConfig::default_markdown() };
-            let testcase = scrut::testcase::TestCase { title: "".into(), shell_expression: "cmd".into(), expectations: vec![], exit_code: None,
+            // optional 4th argument: the expectation lines the test already has (the `update` of a failing test)
+            let maker0 = scrut::expectation::ExpectationMaker::new(scrut::rules::registry::RuleRegistry::default());
+            let mut existing = vec![];
+            if let Some(lines) = a.get(3).and_then(|v| v.as_array()) {
+                for l in lines {
+                    match maker0.parse(&str_arg(l)) {
+                        Ok(e) => existing.push(e),
+                        Err(e) => return json!({"passes": false, "why": format!("existing expectation: {:#}", e)}),
+                    }
+                }
+            }
+            let testcase = scrut::testcase::TestCase { title: "".into(), shell_expression: "cmd".into(), expectations: existing, exit_code: None,
                 line_number: 1, config };
             let result = testcase.validate(&output);
+            if result.is_ok() {
+                return json!({"passes": true, "document": "(the existing test passes: nothing is rewritten)"});
+            }
             let outcome = scrut::outcome::Outcome { location: None, output: output.clone(), testcase,
                 format: if cram { scrut::parsers::parser::ParserType::Cram } else { scrut::parsers::parser::ParserType::Markdown },
                 escaping: esc, result };
@@ -459,6 +473,30 @@ fn eval(name: &str, a: &[Value]) -> Value {
             match scrut::executors::bash_script_executor::verif_hooks::iterate_divided_output(&salt, &bytes_arg(&a[0])) {
                 Ok(v) => json!({"Ok": v.iter().map(|(i, o, c)| json!([i, bytes_val(o), c])).collect::<Vec<_>>()}),
                 Err(e) => json!({"Err": e}),
+            }
+        }
+        // the real single-script (Cram) executor on a list of shell expressions: [[expr…], combined?] → per test stdout / stderr / status
+        "script_execute_all" => {
+            use scrut::executors::executor::Executor;
+            let exprs: Vec<String> = a[0].as_array().unwrap().iter().map(str_arg).collect();
+            let combined = a.get(1).and_then(|v| v.as_bool()).unwrap_or(true);
+            let tests: Vec<scrut::testcase::TestCase> = exprs.iter().enumerate().map(|(i, e)| {
+                let mut config = scrut::config::TestCaseConfig::default_cram();
+                if !combined { config.output_stream = Some(scrut::config::OutputStreamControl::Stdout); }
+                scrut::testcase::TestCase { title: "t".into(), shell_expression: e.clone(), expectations: vec![], exit_code: None, line_number: i + 1, config }
+            }).collect();
+            let refs: Vec<&scrut::testcase::TestCase> = tests.iter().collect();
+            let tmp = std::env::temp_dir().join(format!("verif-script-{}", std::process::id()));
+            let _ = std::fs::create_dir_all(&tmp);
+            let context = scrut::executors::context::ContextBuilder::default()
+                .work_directory(tmp.clone()).temp_directory(tmp.clone()).file(std::path::PathBuf::from("file.t"))
+                .config(scrut::config::DocumentConfig::default_cram()).build().unwrap();
+            let res = scrut::executors::bash_script_executor::BashScriptExecutor::default().execute_all(&refs, &context);
+            let _ = std::fs::remove_dir_all(&tmp);
+            match res {
+                Ok(outs) => json!({"Ok": outs.iter().map(|o| { let so: Vec<u8> = (&o.stdout).into(); let se: Vec<u8> = (&o.stderr).into();
+                    json!({"stdout": so, "stderr": se, "status": format!("{:?}", o.exit_code)}) }).collect::<Vec<_>>()}),
+                Err(e) => json!({"Err": format!("{:#}", e)}),
             }
         }
         "generate_divider" => json!(scrut::executors::bash_script_executor::verif_hooks::generate_divider(
